@@ -184,8 +184,11 @@ def with_remedy(T, rec_count, site, f, *a, **kw):
 # ----------------------------------------------------------------------------------------------------------
 
 def liquid_pressures(T, I, t, n):
-    lo = max(float(call('sat', T.sat, t)), float(call('IAPWS97.sat', I.sat, t)))
-    return R.logspace(lo, R.P_MAX, n)
+    # from saturation upwards: the saturated liquid of EACH formulation is a liquid state of the comparison (the two
+    # saturation curves differ by up to 0.13 %), then the log lattice from the higher of the two
+    s67, s97 = float(call('sat', T.sat, t)), float(call('IAPWS97.sat', I.sat, t))
+    lo, hi = min(s67, s97), max(s67, s97)
+    return ([lo] if lo < hi else []) + R.logspace(hi, R.P_MAX, n)
 
 
 def steam_pmax(T, I, t):
@@ -233,6 +236,22 @@ def chk_state(T, I, name, t, p, pmax):
                           '%s(%r, %r): IFC-67 (d, u) = (%r, %r), IAPWS-97 (%r, %r); %s difference %.6g %s is outside '
                           'the calibrated band [%.4g, %.4g]' % (name, t, p, d67, u67, d97, u97, q, val, unit,
                                                                 bad[0], bad[1])))
+    try:
+        edge = R.identity_tp_edge(lambda tt, pp: call(name, f67, tt, pp), t, p, hp,
+                                  R.T_13 if name == 'cowat' else R.T_MAX)
+    except LibErr as e:
+        return [('C15|%s|raises:%s|%s' % (e.site, type(e.exc).__name__, tb),
+                 '%s near (t, p) = (%r, %r)' % (e, t, p))], m, 'raised'
+    if edge is None:
+        viols.append(('C15|%s|no-value-inside-range|edge-stencil|%s' % (name, tb),
+                      't2thermo.%s returned no value at a state of the one-sided stencil at (%r, %r)' % (name, t, p)))
+    elif edge != 'interior':
+        ekey = 'identity67_%s_edge' % name
+        m[ekey] = (edge, 't=%r p=%r' % (t, p))
+        if not edge <= tol(ekey):
+            viols.append(('C15|%s|single-potential-identity|at-range-limit|%s' % (name, tb),
+                          't2thermo.%s: (du/dp)_T + T (dv/dT)_p + p (dv/dp)_T is %.3g of the sum of its terms at the limit '
+                          'state (t, p) = (%r, %r) (one-sided differences, tolerance %.3g)' % (name, edge, t, p, tol(ekey))))
     if res is None:
         viols.append(('C15|%s|no-value-inside-range|stencil|%s' % (name, tb),
                       't2thermo.%s returned no value at a state of the difference stencil around (%r, %r)' % (name, t, p)))
